@@ -59,6 +59,7 @@ type Result struct {
 	Funcs       map[string]int    `json:"functions"`
 	Stubs       map[string]int    `json:"stubs"`
 	CrossChecks map[string]int    `json:"cross_checked"`
+	ForkSites   map[string]int    `json:"fork_sites"`
 	Truncated   bool              `json:"truncated"`
 }
 
@@ -142,7 +143,7 @@ func Explore(P *Program, entry *ssa.Function, cfg Config) *Result {
 	x := &Explorer{P: P, entry: entry, cfg: cfg, seenCex: map[string]bool{}, reverseMaps: cfg.ReverseMaps, crossCheck: cfg.CrossCheck}
 	x.cond = sync.NewCond(&x.mu)
 	x.res = Result{Harness: entry.Name(), Pkg: entry.Pkg.Pkg.Path(), Params: cfg.Params, Paths: map[string]int{}, Asserts: map[string]int{},
-		Funcs: map[string]int{}, Stubs: map[string]int{}, CrossChecks: map[string]int{}}
+		Funcs: map[string]int{}, Stubs: map[string]int{}, CrossChecks: map[string]int{}, ForkSites: map[string]int{}}
 	if cfg.TimeLimit > 0 {
 		x.deadline = time.Now().Add(cfg.TimeLimit)
 	}
@@ -182,6 +183,9 @@ func Explore(P *Program, entry *ssa.Function, cfg Config) *Result {
 			}
 			for k, v := range e.stubHits {
 				x.res.Stubs[k] += v
+			}
+			for k, v := range e.forkSites {
+				x.res.ForkSites[k] += v
 			}
 			x.mu.Unlock()
 		}()
@@ -260,7 +264,7 @@ func contains(l []string, s string) bool {
 }
 
 func NewExec(P *Program, s *Solver, x *Explorer) *Exec {
-	e := &Exec{P: P, S: s, X: x, globals: map[*ssa.Global]*Cell{}, maxSteps: x.cfg.MaxSteps, callCount: map[string]int{}, stubHits: map[string]int{}}
+	e := &Exec{P: P, S: s, X: x, forkSites: map[string]int{}, globals: map[*ssa.Global]*Cell{}, maxSteps: x.cfg.MaxSteps, callCount: map[string]int{}, stubHits: map[string]int{}}
 	if e.maxSteps == 0 {
 		e.maxSteps = 2000000
 	}
